@@ -272,6 +272,9 @@ impl Uci {
                 self.game = Game::new();
                 self.is_stopped.reset();
 
+                #[cfg(jgilchrist_tcheran_verif)]
+                crate::engine::util::sync::verif_delay("newgame_after_reset");
+
                 let mut persistent_state_handle = self.persistent_state.lock().unwrap();
                 persistent_state_handle.reset();
             }
@@ -333,6 +336,9 @@ impl Uci {
                 let is_stopped = self.is_stopped.clone();
 
                 let join_handle = std::thread::spawn(move || {
+                    #[cfg(jgilchrist_tcheran_verif)]
+                    crate::engine::util::sync::verif_delay("go_before_lock");
+
                     let mut persistent_state_handle = persistent_state.lock().unwrap();
 
                     let best_move = search::search(
@@ -344,8 +350,18 @@ impl Uci {
                         &mut reporter,
                     );
 
+                    #[cfg(jgilchrist_tcheran_verif)]
+                    crate::engine::util::sync::verif_delay("go_after_search");
+
                     reporter.best_move(&game, best_move);
+
+                    #[cfg(jgilchrist_tcheran_verif)]
+                    crate::engine::util::sync::verif_delay("go_after_bestmove");
+
                     is_stopped.set();
+
+                    #[cfg(jgilchrist_tcheran_verif)]
+                    crate::engine::util::sync::verif_delay("go_after_latch");
                 });
 
                 if self.block_on_threads {
@@ -355,6 +371,10 @@ impl Uci {
             UciCommand::Stop => {
                 if let Some(c) = self.control.as_mut() {
                     c.stop();
+
+                    #[cfg(jgilchrist_tcheran_verif)]
+                    crate::engine::util::sync::verif_delay("stop_before_wait");
+
                     self.is_stopped.wait();
                 }
 
